@@ -233,23 +233,37 @@ impl World {
 	/// bundles into individual messages in PeerManager order), collects signer / persist /
 	/// broadcast observations and applies the manager persistence policy.
 	pub fn pump(&mut self) {
+		let mut msgs: Vec<(usize, MessageSendEvent)> = Vec::new();
 		for i in 0..self.nodes.len() {
-			let evs = self.nodes[i].cm.get_and_clear_pending_msg_events();
-			for e in evs {
-				self.route_msg_event(i, e);
+			for e in self.nodes[i].cm.get_and_clear_pending_msg_events() {
+				msgs.push((i, e));
 			}
 		}
-		for s in siglog_take() {
-			self.obs.push(Obs::Sig(s));
+		// signer / persister / broadcaster records in true chronological order
+		let mut recs: Vec<(u64, Obs)> = Vec::new();
+		for (q, s) in siglog_take() {
+			recs.push((q, Obs::Sig(s)));
 		}
 		for i in 0..self.nodes.len() {
 			for rec in self.nodes[i].persist.take_log() {
-				self.obs.push(Obs::Persist { node: i, rec });
+				recs.push((rec.seq, Obs::Persist { node: i, rec }));
 			}
 			for b in self.nodes[i].bc.take() {
-				self.chain.admit_package(&b.txs);
-				self.obs.push(Obs::Broadcast { node: i, b });
+				recs.push((b.seq, Obs::Broadcast { node: i, b }));
 			}
+		}
+		recs.sort_by_key(|r| r.0);
+		for (_, o) in recs {
+			if let Obs::Broadcast { b, .. } = &o {
+				self.chain.admit_package(&b.txs);
+			}
+			self.obs.push(o);
+		}
+		// messages become observable to the peer only now
+		for (i, e) in msgs {
+			self.route_msg_event(i, e);
+		}
+		for i in 0..self.nodes.len() {
 			if self.nodes[i].cm.get_and_clear_needs_persistence() {
 				if self.eager_manager_persist {
 					self.nodes[i].write_manager();
@@ -510,6 +524,19 @@ impl World {
 				did = true;
 			}
 			if !did {
+				// asynchronous persistence during set-up: complete the oldest outstanding update
+				for i in 0..self.nodes.len() {
+					if let Some((cid, id)) = self.nodes[i].persist.outstanding().first().cloned() {
+						self.nodes[i].persist.mark_completed(cid, id);
+						let _ = self.nodes[i].mon.channel_monitor_updated(cid, id);
+						self.obs.push(Obs::Completed { node: i, chan: cid, id });
+						self.pump();
+						did = true;
+						break;
+					}
+				}
+			}
+			if !did {
 				return true;
 			}
 		}
@@ -651,5 +678,37 @@ impl World {
 				_ => None,
 			})
 			.collect()
+	}
+}
+
+pub fn obs_summary(o: &Obs) -> String {
+	let head = |s: String| s.split(|c| c == ' ' || c == '{' || c == '(').next().unwrap_or("").to_string();
+	match o {
+		Obs::Sent { from, to, wire } => format!("S {}>{} {}", from, to, wire.kind()),
+		Obs::Delivered { from, to, wire } => format!("D {}>{} {}", from, to, wire.kind()),
+		Obs::Event { node, ev } => format!("E {} {}", node, head(format!("{:?}", ev))),
+		Obs::Sig(s) => {
+			let d = format!("{:?}", s);
+			let num = match s {
+				SigEv::SignCounterpartyCommitment { node, info, .. } => format!("n{} #{}", (*node - b'A'), crate::model::INITIAL_COMMITMENT_NUMBER - info.number),
+				SigEv::ReleaseSecret { node, idx, .. } => format!("n{} #{}", (*node - b'A'), crate::model::INITIAL_COMMITMENT_NUMBER - idx),
+				SigEv::SignHolderCommitment { node, number, .. } => format!("n{} #{}", (*node - b'A'), crate::model::INITIAL_COMMITMENT_NUMBER - number),
+				_ => String::new(),
+			};
+			format!("SIG {} {}", head(d), num)
+		},
+		Obs::Persist { node, rec } => format!(
+			"P {} chan={} id={:?}/{} inprog={} steps={:?} holder={:?}",
+			node,
+			&format!("{}", rec.chan)[..6],
+			rec.update_id,
+			rec.monitor_update_id,
+			rec.in_progress,
+			rec.steps.iter().map(|s| (s.name, s.number.map(|n| crate::model::INITIAL_COMMITMENT_NUMBER - n))).collect::<Vec<_>>(),
+			rec.holder_commits.iter().map(|h| crate::model::INITIAL_COMMITMENT_NUMBER - h.number).collect::<Vec<_>>()
+		),
+		Obs::Broadcast { node, b } => format!("B {} {:?} {:?}", node, b.kinds, b.txs.iter().map(|t| t.compute_txid().to_string()[..8].to_string()).collect::<Vec<_>>()),
+		Obs::Api { node, what, ok, detail } => format!("API {} {} ok={} {}", node, what, ok, if *ok { "" } else { detail }),
+		o => format!("{:?}", o),
 	}
 }
